@@ -166,7 +166,7 @@ impl Config {
 // ---------------------------------------------------------------------------------------------
 // generator of flat bodies
 
-struct Gen<'a> { rng: &'a mut Rng, cfg: &'a Config, locals: Vec<(String, Ty)>, hist: &'a mut BTreeMap<&'static str, u64> }
+struct Gen<'a> { rng: &'a mut Rng, cfg: &'a Config, locals: Vec<(String, Ty)>, hist: &'a mut BTreeMap<&'static str, u64>, diffsw: bool }
 
 fn float_src(bits: u32) -> String {
     let x = f32::from_bits(bits);
@@ -196,6 +196,17 @@ impl<'a> Gen<'a> {
         format!("{}REG[{}]", sig, self.rng.pick(other))
     }
     fn atom(&mut self, ty: Ty) -> String {
+        if self.diffsw && self.rng.chance(1, 6) {
+            // a difficulty switch whose cases are atoms (stays an argument all the way down), with holes
+            self.bump("diff_switch");
+            let n = 2 + self.rng.below(3) as usize;
+            let mut parts = vec![self.plain_atom(ty)];
+            for _ in 1..n { if self.rng.chance(1, 4) { parts.push(String::new()); } else { parts.push(self.plain_atom(ty)); } }
+            return format!("({})", parts.join(":"));
+        }
+        self.plain_atom(ty)
+    }
+    fn plain_atom(&mut self, ty: Ty) -> String {
         if self.rng.chance(1, 2) { return self.var(ty, false); }
         self.bump("literal");
         match ty { Ty::Int => format!("{}", *self.rng.pick(&INTS) as u32), _ => float_src(*self.rng.pick(&FLOATS)) }
@@ -219,11 +230,14 @@ impl<'a> Gen<'a> {
                 _ => self.atom(ty),
             },
             _ => match self.rng.below(14) {
-                0..=6 => { self.bump("arith"); let op = *self.rng.pick(&["+", "-", "*", "/", "%"]); format!("({} {} {})", self.expr(ty, d), op, self.expr(ty, d)) },
+                0..=4 => { self.bump("arith"); let op = *self.rng.pick(&["+", "-", "*"]); format!("({} {} {})", self.expr(ty, d), op, self.expr(ty, d)) },
+                // no NaN may arise (the property quantifies over non-NaN floats and `unless (a < b)` compiles to
+                // `a >= b`): divide only by nonzero literals, take roots only of squares
+                5..=6 => { self.bump("arith_div"); let op = *self.rng.pick(&["/", "%"]); let dv = *self.rng.pick(&["0.5", "2.0", "3.0", "(-1.5)"]); format!("({} {} {})", self.expr(ty, d), op, dv) },
                 7..=8 => { self.bump("neg"); format!("(-({}))", self.expr(ty, d)) },
                 9 => { self.bump("cast"); format!("%({})", self.expr(Ty::Int, d)) },
                 10 => { self.bump("cast"); format!("float({})", self.expr(Ty::Int, d)) },
-                11 => { self.bump("sqrt"); format!("sqrt({})", self.expr(ty, d)) },
+                11 => { self.bump("sqrt"); let x = self.atom(ty); format!("sqrt(({} * {}))", x, x) },
                 12 => { self.bump("ternary"); format!("({} ? {} : {})", self.cond_expr(d), self.expr(ty, d), self.expr(ty, d)) },
                 _ => self.atom(ty),
             },
@@ -459,15 +473,17 @@ fn run_case(cfg: &Config, text: &str, rng: &mut Rng, nvals: usize) -> Outcome {
         let ctx = truth.ctx();
         let data = match truth::passes::semantics::time_and_difficulty::run(&old_stmts[..], &ctx.emitter) { Ok(d) => d, Err(_) => { out.rejected = Some("time analysis".into()); return out; } };
         let mut parts = vec![];
+        let mut ok = true;
         for s in &old_stmts {
             let d = data[&s.node_id.unwrap()];
             match ser.stmt(&s.value, ctx) {
                 Ok(Some(t)) => parts.push(format!("({}, {}, {})", z(d.time as i64), d.difficulty_mask.mask(), t)),
                 Ok(None) => {},
-                Err(m) => { out.rejected = Some(m); return out; },
+                // outside the model's expression language (difficulty switches): oracle only
+                Err(m) => { out.rejected = Some(format!("oracle-only: {}", m.chars().take(20).collect::<String>())); ok = false; break; },
             }
         }
-        format!("[{}]", parts.join("; "))
+        if ok { Some(format!("[{}]", parts.join("; "))) } else { None }
     };
 
     // lower (the step under test)
@@ -483,11 +499,11 @@ fn run_case(cfg: &Config, text: &str, rng: &mut Rng, nvals: usize) -> Outcome {
     let temp_base = 1000usize;
     let cfg_coq = cfg.coq(&ser.lty, temp_base);
     let res = match &lowered {
-        Ok(Ok(instrs)) => match decode(cfg, instrs) { Ok(t) => format!("(LOk {})", t), Err(m) => { out.rejected = Some(format!("decode: {}", m)); return out; } },
+        Ok(Ok(instrs)) => match decode(cfg, instrs) { Ok(t) => format!("(LOk {})", t), Err(m) => { if stmts_coq.is_some() { out.rejected = Some(format!("decode: {}", m)); return out; } String::new() } },
         Ok(Err(_)) => "LErr".to_string(),
         Err(p) => { out.oracle_fail.push(format!("lowering panicked: {}", p)); "LPanic".to_string() },
     };
-    out.case = Some(format!("KLower {} {} {}", cfg_coq, stmts_coq, res));
+    if let Some(stmts_coq) = &stmts_coq { out.case = Some(format!("KLower {} {} {}", cfg_coq, stmts_coq, res)); }
 
     // impl-level oracle: AstVm before vs after
     if let Ok(Ok(instrs)) = lowered {
@@ -502,6 +518,7 @@ fn run_case(cfg: &Config, text: &str, rng: &mut Rng, nvals: usize) -> Outcome {
             Ok(stmts)
         });
         let new_stmts = match raised { Ok(Ok(s)) => s, other => { out.oracle_fail.push(format!("raising the lowered code failed: {:?}", other.err())); return out; } };
+        if std::env::var("VERIF_DEBUG").is_ok() { eprintln!("{}", truth::fmt::stringify(&ast::Block(new_stmts.clone()))); }
         // registers whose final value must agree: everything mentioned in the source, and every non-scratch register
         let mentioned: Vec<i32> = INT_SCRATCH.iter().chain(FLOAT_SCRATCH.iter()).chain(INT_OTHER.iter()).chain(FLOAT_OTHER.iter())
             .copied().filter(|r| text.contains(&format!("REG[{}]", r)) || !(cfg.pool_int.contains(r) || cfg.pool_float.contains(r))).collect();
@@ -516,17 +533,27 @@ fn run_case(cfg: &Config, text: &str, rng: &mut Rng, nvals: usize) -> Outcome {
             let r_new = catch(|| { new_vm.run(&new_stmts, ctx); });
             if let Err(p) = r_new { out.oracle_fail.push(format!("compiled code panics in the VM ({}) where the source does not", p)); break; }
             let mut bad = vec![];
+            let mut value_diff = false;
             if old_vm.time != new_vm.time { bad.push(format!("time {} vs {}", old_vm.time, new_vm.time)); }
             if old_vm.real_time != new_vm.real_time { bad.push(format!("real_time {} vs {}", old_vm.real_time, new_vm.real_time)); }
-            let same_log = old_vm.instr_log.len() == new_vm.instr_log.len() && old_vm.instr_log.iter().zip(&new_vm.instr_log).all(|(a, b)| {
-                a.opcode == b.opcode && a.real_time == b.real_time && a.args.len() == b.args.len() && a.args.iter().zip(&b.args).all(|(x, y)| same_value(x, y))
+            let same_calls = old_vm.instr_log.len() == new_vm.instr_log.len() && old_vm.instr_log.iter().zip(&new_vm.instr_log).all(|(a, b)| {
+                a.opcode == b.opcode && a.args.len() == b.args.len() && a.args.iter().zip(&b.args).all(|(x, y)| same_value(x, y))
             });
+            let same_log = same_calls && old_vm.instr_log.iter().zip(&new_vm.instr_log).all(|(a, b)| a.real_time == b.real_time);
+            if !same_calls { value_diff = true; }
             if !same_log { bad.push(format!("instruction log {:?} vs {:?}", old_vm.instr_log, new_vm.instr_log)); }
             for &r in &mentioned {
                 match (old_vm.get_reg(RegId(r)), new_vm.get_reg(RegId(r))) {
                     (Some(a), Some(b)) if same_value(&a, &b) => {},
-                    (a, b) => bad.push(format!("REG[{}] {:?} vs {:?}", r, a, b)),
+                    (a, b) => { value_diff = true; bad.push(format!("REG[{}] {:?} vs {:?}", r, a, b)); },
                 }
+            }
+            // Recorded finding: a jump with an explicit `@ t` leaves the VM at a time different from the
+            // statements' labelled time; the jumps that the lowerer generates for ternaries / && / || /
+            // unless-skips go to generated labels "at the statement's time" and so reset the time.
+            if !bad.is_empty() && !value_diff && text.contains(" @ ") {
+                out.oracle_fail.push(format!("explicit-jump-time: only times differ after a jump with an explicit time argument: {}", bad.join("; ")));
+                break;
             }
             if !bad.is_empty() { out.oracle_fail.push(format!("source and compiled code behave differently: {}", bad.join("; "))); break; }
         }
@@ -562,7 +589,8 @@ fn main() {
                 let mut r = rng.fork();
                 let bits = r.next_u64() & 0xfff | if r.chance(3, 4) { 32 } else { 0 };
                 let cfg = Config::new(bits);
-                let text = { let mut g = Gen { rng: &mut r, cfg: &cfg, locals: vec![], hist: &mut hist }; let n = 2 + g.rng.below(7) as usize; g.body(n) };
+                let diffsw = r.chance(1, 5);
+                let text = { let mut g = Gen { rng: &mut r, cfg: &cfg, locals: vec![], hist: &mut hist, diffsw }; let n = 2 + g.rng.below(7) as usize; g.body(n) };
                 let o = run_case(&cfg, &text, &mut r, 4);
                 if let Some(why) = &o.rejected { *rejected.entry(why.chars().take(40).collect()).or_insert(0) += 1; }
                 report(&cfg, &text, &o);
